@@ -14,6 +14,9 @@
      len(self.rm_map) != 0; `for rm in self.rm_map.values(): rm.clear()` clears both; new_model.build_role_links(self.rm_map)
      links the candidate's g then g2 rules into them, stopping at the first exception with what was linked so far;
    - self.cond_rm_map is empty (no conditional role definitions in Mgmt's kinds);
+   - self.model.build_role_links(self.rm_map)   the same linking with the enforcer's OWN g then g2 rules (Policy.build_role_links
+     is checked by the translator to be the loop `for ptype, ast in self["g"].items(): rm = rm_map.get(ptype); if rm:
+     ast.build_role_links(rm)` behind the `"g" not in self.keys()` guard; Assertion.build_role_links is tied by LinkTie.v);
    - self.model = new_model                     the enforcer now holds the candidate's rules (and knows its priority index);
    - self.build_role_links()                    Mgmt.build_role_links on the enforcer as it is now (may raise);
    - try: B except Exception as e: H; raise e   if B raises c: H runs, then c is raised again (or what H raised). *)
@@ -32,6 +35,7 @@ Inductive lstmt : Type :=
 | SIfL (c : lcond) (a b : list lstmt)
 | SClearRms | SClearCondRms
 | SBuildNew | SBuildCondNew
+| SBuildOwn                       (* self.model.build_role_links(self.rm_map) *)
 | SCommit
 | SSelfBuild
 | STryL (body handler : list lstmt).
@@ -92,6 +96,17 @@ Section Interp.
               match e2 with Some c => LdRaise (with_self s me2) c | None => LdNext (with_self s me2) end
           end
       | SBuildCondNew => LdRaise s 90
+      | SBuildOwn =>
+          let me := l_self s in
+          let '(rm, e) := links_add (g_count k PT_G) (m_rm me) (m_g me) EGroupArity in
+          let me1 := set_rm me rm in
+          match e with
+          | Some c => LdRaise (with_self s me1) c
+          | None =>
+              let '(rm2, e2) := links_add 2 (RMPlain (m_rm2 me1)) (m_g2 me1) EGroupArity in
+              let me2 := put_rm me1 PT_G2 rm2 in
+              match e2 with Some c => LdRaise (with_self s me2) c | None => LdNext (with_self s me2) end
+          end
       | SCommit =>
           let '(p0, g0, h0) := l_new s in
           let me := l_self s in
